@@ -151,7 +151,15 @@ pub fn op_convert(job: &J) -> R<J> {
             CodeGenInterner::new().program(&mut q);
         });
         match r {
-            Ok(()) => out["interned"] = named_term_to_json(&q.term),
+            Ok(()) => {
+                out["interned"] = named_term_to_json(&q.term);
+                // what the code generator does next: convert the re-interned program
+                let conv: Result<Program<NamedDeBruijn>, _> = q.clone().try_into();
+                match conv {
+                    Ok(nd) => out["interned_to_nd"] = tj::term_to_json(&nd.term),
+                    Err(e) => out["interned_to_nd_err"] = json!(crate::util::variant_name(&format!("{e:?}"))),
+                }
+            }
             Err(pn) => out["interned_panic"] = json!(pn),
         }
     }
